@@ -42,6 +42,7 @@ def model_text(model, terms=None, limit=4000):
 
 
 _SPEC = None
+OPEN_CAP_S = 150.0
 
 
 def _work_idx(w):
@@ -55,6 +56,7 @@ def _work(spec):
     out = {'paths': [(p.kind, p.describe()) for p in paths], 'instances': [], 'inlined': set(), 'assumed': set()}
     unk_count = {}
     replayed = {}
+    open_time = 0.0
     for p in paths:
         out['inlined'] |= p.run.inlined
         out['assumed'] |= p.run.assumed
@@ -80,9 +82,18 @@ def _work(spec):
                 out['instances'].append({'name': n, 'verdict': 'unknown', 'dt': 0.0, 'pi': pi, 'describe': p.describe(),
                                          'lemma': info == 'lemma', 'reason': 'skipped after repeated solver timeouts on other paths'})
                 continue
-            v, m, dt = E.discharge(p.run, f, npc, nax, timeout_ms=timeout_ms, extra=lemmas if npc is None else ())
+            # On a tree where proofs fail, every open query burns its whole (deterministic) rlimit budget.  Once this worker has
+            # spent OPEN_CAP_S seconds on queries that stayed open, the remaining queries get a 20x smaller budget: a proof that
+            # needs more comes out 'unknown' (undecided), never as a verdict.  On a tree where everything proves no query
+            # stays open, so the cap never applies and verdicts do not depend on the machine load.
+            tmo = timeout_ms if open_time < OPEN_CAP_S else max(timeout_ms // 20, 500)
+            v, m, dt = E.discharge(p.run, f, npc, nax, timeout_ms=tmo, extra=lemmas if npc is None else ())
+            if v != 'unsat':
+                open_time += dt
             if v != 'unsat' and lemmas and npc is None:
-                v2, m2, dt2 = E.discharge(p.run, f, npc, nax, timeout_ms=timeout_ms)
+                v2, m2, dt2 = E.discharge(p.run, f, npc, nax, timeout_ms=tmo)
+                if v2 != 'unsat':
+                    open_time += dt2
                 dt += dt2
                 if v2 == 'unsat' or v == 'unknown':
                     v, m = v2, m2
